@@ -28,8 +28,8 @@ inductive Exit | code (n : Nat) | signal (s : Sig)
 inductive CS | test | rmPid | relLock
   deriving DecidableEq, Repr
 
-/-- next action of `handle_error` -/
-inductive HS | write | clean (c : CS) | exit
+/-- next action of `handle_error`: write the failure marker, the three actions of `cleanup`, `sys.exit(1)` -/
+inductive HS | write | test | rmPid | relLock | exit
   deriving DecidableEq, Repr
 
 /-- program location of the main flow = the *next* action it will perform -/
@@ -82,7 +82,7 @@ structure Proc where
   completed : Bool := false           -- the body ran to its end (returned, or ended itself with status 0)
   touched : Bool := false             -- wrote the success marker
   sigInBody : Bool := false           -- received SIGTERM/SIGINT while running the body
-  wroteFailed : Option Nat := none    -- lock epoch at the last failure-marker write of this process
+  wroteFailed : Option Nat := none    -- lock epoch at the first failure-marker write of this process
   deriving Repr
 
 /-- files, lock, ghost counters -/
@@ -108,22 +108,12 @@ def Proc.alive (p : Proc) : Bool := p.dead.isNone
 def release (sh : Shared) (h : Holder) : Shared :=
   if sh.lock = some h then { sh with lock := none } else sh
 
-/-- one action of `cleanup`; returns the next stage (`none` = finished) -/
-def cleanupStep (me : Nat) (sh : Shared) (p : Proc) : CS → Shared × Proc × Option CS
-  | .test => if p.cleaned then (sh, p, none) else (sh, { p with cleaned := true }, some .rmPid)
-  | .rmPid => ({ sh with pid := none }, p, some .relLock)
-  | .relLock => (release sh (.run me), p, none)
-
 /-- start of interpreter finalisation with exit status `st` -/
 def finStart (p : Proc) (st : Exit) : Loc := .fin (if p.reg then some .test else none) st
 
-/-- one action of `handle_error(code)` up to (not including) what `sys.exit(1)` leads to -/
-def herrStep (me : Nat) (sh : Shared) (p : Proc) (code : Nat) : HS → Shared × Proc × Option HS
-  | .write => ({ sh with failed := some code }, { p with wroteFailed := some sh.epoch }, some (.clean .test))
-  | .clean c =>
-      let r := cleanupStep me sh p c
-      (r.1, r.2.1, match r.2.2 with | some c' => some (.clean c') | none => some .exit)
-  | .exit => (sh, p, none)
+/-- the first failure-marker write of a process records the lock epoch (ghost) -/
+def markEpoch (sh : Shared) (p : Proc) : Option Nat :=
+  match p.wroteFailed with | none => some sh.epoch | some e => some e
 
 /-- where `SystemExit(1)` raised by a finished signal handler lands -/
 def afterHandler (p : Proc) : Loc :=
@@ -133,7 +123,8 @@ def afterHandler (p : Proc) : Loc :=
   | l => if l.inTry then .herr .write 1    -- `except SystemExit` with code 1: `handle_error(1)`
          else finStart p (.code 1)         -- not protected: leaves `run()`
 
-/-- one step of the main flow (no handler active) -/
+/-- one step of the main flow (no handler active).  `cleanup` = test-and-set `cleaned`, `rmfile(pid)`,
+    release the lock; it appears three times (signal handler, `handle_error` from an `except` clause, atexit). -/
 def mainStep (cfg : Cfg) (me : Nat) (sh : Shared) (p : Proc) : Shared × Proc :=
   match p.loc with
   | .init => (sh, { p with loc := .reg, reg := true })
@@ -160,30 +151,41 @@ def mainStep (cfg : Cfg) (me : Nat) (sh : Shared) (p : Proc) : Shared × Proc :=
   | .touch => ({ sh with done := true }, { p with loc := .reraise, touched := true })
   | .reraise => (sh, { p with loc := finStart p (.code 0) })
   | .skipped => (sh, { p with loc := finStart p (.code 0) })
-  | .herr h code =>
-      let r := herrStep me sh p code h
-      (r.1, { r.2.1 with loc := match r.2.2 with | some h' => .herr h' code | none => finStart p (.code 1) })
-  | .fin (some c) st =>
-      let r := cleanupStep me sh p c
-      (r.1, { r.2.1 with loc := .fin r.2.2 st })
+  | .herr .write code => ({ sh with failed := some code }, { p with loc := .herr .test code, wroteFailed := markEpoch sh p })
+  | .herr .test code =>
+      if p.cleaned then (sh, { p with loc := .herr .exit code }) else (sh, { p with loc := .herr .rmPid code, cleaned := true })
+  | .herr .rmPid code => ({ sh with pid := none }, { p with loc := .herr .relLock code })
+  | .herr .relLock code => (release sh (.run me), { p with loc := .herr .exit code })
+  | .herr .exit _ => (sh, { p with loc := finStart p (.code 1) })
+  | .fin (some .test) st =>
+      if p.cleaned then (sh, { p with loc := .fin none st }) else (sh, { p with loc := .fin (some .rmPid) st, cleaned := true })
+  | .fin (some .rmPid) st => ({ sh with pid := none }, { p with loc := .fin (some .relLock) st })
+  | .fin (some .relLock) st => (release sh (.run me), { p with loc := .fin none st })
   | .fin none st => (release sh (.run me), { p with dead := some st })
+
+/-- one step of a running signal handler (`handle_error(code, frame)`) -/
+def handlerStep (me : Nat) (sh : Shared) (p : Proc) (code : Nat) : HS → Shared × Proc
+  | .write => ({ sh with failed := some code }, { p with hnd := some (.test, code), wroteFailed := markEpoch sh p })
+  | .test =>
+      if p.cleaned then (sh, { p with hnd := some (.exit, code) }) else (sh, { p with hnd := some (.rmPid, code), cleaned := true })
+  | .rmPid => ({ sh with pid := none }, { p with hnd := some (.relLock, code) })
+  | .relLock => (release sh (.run me), { p with hnd := some (.exit, code) })
+  | .exit => (sh, { p with hnd := none, loc := afterHandler p })
 
 /-- one step of process `me` -/
 def stepProc (cfg : Cfg) (me : Nat) (sh : Shared) (p : Proc) : Shared × Proc :=
-  if p.dead.isSome then (sh, p) else
-  match p.hnd with
-  | some (h, code) =>
-      let r := herrStep me sh p code h
-      (r.1, match r.2.2 with
-            | some h' => { r.2.1 with hnd := some (h', code) }
-            | none => { r.2.1 with hnd := none, loc := afterHandler r.2.1 })
-  | none => mainStep cfg me sh p
+  match p.dead, p.hnd with
+  | some _, _ => (sh, p)
+  | none, some (h, code) => handlerStep me sh p code h
+  | none, none => mainStep cfg me sh p
 
 def inBody (p : Proc) : Bool := match p.loc with | .body _ => true | _ => false
 
 /-- delivery of a signal -/
 def deliver (me : Nat) (sh : Shared) (p : Proc) (sig : Sig) : Shared × Proc :=
-  if p.dead.isSome then (sh, p) else
+  match p.dead with
+  | some _ => (sh, p)
+  | none =>
   match sig with
   | .kill => (release sh (.run me), { p with dead := some (.signal .kill) })
   | .term =>
